@@ -48,6 +48,7 @@ def gen_cases(seed, tier):
         # KeyInit::new_from_slice: exactly the 32-byte keys (every length 0..40, 48, 64, 96 on one platform is enough:
         # the key check does not depend on the platform)
         if plat == PLATFORMS[0]:
+            lines.append("tconst")
             for n in list(range(0, 41)) + [48, 63, 64, 65, 96, 128]:
                 lines.append(f"tks prng/{rng.below(9999)}/{n} {bspec(rng, rng.choice([0, 3, 65, 1025]))}")
         # guts
